@@ -1,7 +1,10 @@
 package main
 
 import (
+	"context"
 	"fmt"
+	"os"
+	"path/filepath"
 	"regexp"
 
 	"google.golang.org/protobuf/proto"
@@ -9,6 +12,9 @@ import (
 	"github.com/bufbuild/protocompile"
 	"github.com/bufbuild/protocompile/internal/zzverif/hx"
 	"github.com/bufbuild/protocompile/internal/zzverif/model"
+	"github.com/bufbuild/protocompile/linker"
+	"github.com/bufbuild/protocompile/reporter"
+	"google.golang.org/protobuf/types/descriptorpb"
 )
 
 func init() {
@@ -24,12 +30,89 @@ func runModel(h *hx.H, prop string) {
 	if prop == "C01" {
 		h.Rule = fmt.Sprintf("inputs: every workspace obtained from the three-file base (main.proto in proto2 / proto3 / edition 2023) by <=%d deviations from a catalogue of about 280 (labels, types, numbers, names, options, oneof placement, type spellings, maps, groups, reserved and extension ranges, enum values, extensions, service, imports, package), printed and compiled by the real compiler; oracle: the three-valued reference model of protoc's acceptance rules (DESIGN Appendix A/B): alarm iff the model accepts and the compiler rejects or the model rejects and the compiler accepts; UNKNOWN never alarms; non-trivial = workspace the model rejects", maxDev)
 	} else {
-		h.Rule = fmt.Sprintf("inputs: the workspaces of C01 (<=%d deviations) that the reference model accepts; oracle: the FileDescriptorProtos produced by the real compiler (source info off) equal the ones the reference model builds (names, numbers, labels, types, resolved type names, json_name, defaults, oneof indices incl. synthetic oneofs, map entries, groups, ranges, options, dependency lists); non-trivial = accepted workspace with >=1 deviation", maxDev)
+		h.Rule = fmt.Sprintf("inputs: the workspaces of C01 (<=%d deviations) that the reference model accepts; oracle: the FileDescriptorProtos produced by the real compiler (source info off) equal the ones the reference model builds (names, numbers, labels, types, resolved type names, json_name, defaults, oneof indices incl. synthetic oneofs, map entries, groups, ranges, options, dependency lists); non-trivial = accepted workspace with >=1 deviation; plus, as a protoc-backed anchor, every file of the nine protoc-produced descriptor sets under internal/testdata whose source is present is compiled and compared with protoc's recorded descriptor", maxDev)
 	}
 	h.Assumptions = append(h.Assumptions, "protoc itself is not available in this sandbox: the oracle is a reference model of protoc's rules written from its documented algorithms, calibrated on the base workspaces; cases the model does not cover are UNKNOWN and never alarm")
 	forEachWS(h, maxDev, func(idx int64, ws *model.WS, ndev int) {
 		checkModel(h, prop, idx, ws, ndev)
 	})
+	if prop == "C02" {
+		recordedCorpus(h)
+	}
+}
+
+// recordedCorpus is the protoc-backed anchor of C02: every file of the descriptor sets that ship
+// in the repository (produced by protoc) whose source is in the testdata is compiled and compared
+// with protoc's recorded descriptor.
+func recordedCorpus(h *hx.H) {
+	root := os.Getenv("VERIF_REPO")
+	if root == "" {
+		root = "/repo"
+	}
+	td := filepath.Join(root, "internal/testdata")
+	sets := []string{"all.protoset", "desc_test_complex.protoset", "desc_test_defaults.protoset", "desc_test_proto3_optional.protoset", "editions/all.protoset", "options/options.protoset", "options/test.protoset", "options/test_editions.protoset", "options/test_proto3.protoset"}
+	for _, set := range sets {
+		idx, run := h.NextN()
+		if !run {
+			continue
+		}
+		data, err := os.ReadFile(filepath.Join(td, set))
+		if err != nil {
+			h.Count("recorded_sets_missing", 1)
+			continue
+		}
+		var fds descriptorpb.FileDescriptorSet
+		if err := proto.Unmarshal(data, &fds); err != nil {
+			h.Infra = append(h.Infra, "C02 corpus: "+err.Error())
+			return
+		}
+		dirs := []string{filepath.Join(td, filepath.Dir(set)), td}
+		for _, want := range fds.File {
+			name := want.GetName()
+			found := false
+			for _, d := range dirs {
+				if _, err := os.Stat(filepath.Join(d, name)); err == nil {
+					found = true
+				}
+			}
+			if !found {
+				h.Count("recorded_files_without_source", 1)
+				continue
+			}
+			h.Eval(1)
+			h.State(1)
+			h.Trans(1)
+			var errs []string
+			c := protocompile.Compiler{
+				Resolver:       protocompile.WithStandardImports(&protocompile.SourceResolver{ImportPaths: dirs}),
+				MaxParallelism: 1,
+				Reporter:       reporter.NewReporter(func(e reporter.ErrorWithPos) error { errs = append(errs, e.Error()); return nil }, nil),
+			}
+			files, err := c.Compile(context.Background(), name)
+			h.Trace(1)
+			if err != nil {
+				h.Violate("recorded-corpus-rejected", hx.CaseID(idx), fmt.Sprintf("%s (%s): protoc produced a descriptor, the compiler rejects: %v %v", name, set, err, errs), nil)
+				continue
+			}
+			h.NonTrivial++
+			h.Count("recorded_files_compared", 1)
+			res := linker.ResolverFromFile(files[0])
+			norm := func(m *descriptorpb.FileDescriptorProto) *descriptorpb.FileDescriptorProto {
+				c := proto.Clone(m).(*descriptorpb.FileDescriptorProto)
+				c.SourceCodeInfo = nil
+				b, _ := proto.MarshalOptions{Deterministic: true}.Marshal(c)
+				out := &descriptorpb.FileDescriptorProto{}
+				if err := (proto.UnmarshalOptions{Resolver: res}).Unmarshal(b, out); err != nil {
+					return c
+				}
+				return out
+			}
+			got, exp := norm(fdProto(files[0])), norm(want)
+			if !proto.Equal(got, exp) {
+				h.Violate("recorded-corpus-differs:"+diffField(got.ProtoReflect(), exp.ProtoReflect(), ""), hx.CaseID(idx), fmt.Sprintf("%s (%s): the compiled descriptor differs from the one protoc recorded", name, set), nil)
+			}
+		}
+	}
 }
 
 func checkModel(h *hx.H, prop string, idx int64, ws *model.WS, ndev int) {
